@@ -37,14 +37,15 @@ Valid(c) ==
         /\ c.cap >= Pos(c.intf[1]) /\ c.cap <= Pos(c.intf[n])
         \* a wire-fencing ensemble needs room: ensemble k+1 (k = 1..n-1) works on [lambda_k, cap)
         /\ \A k \in 1..(n-1) : (k + 1 <= Len(c.moves) /\ c.moves[k+1] = "wf") => c.cap > Pos(c.intf[k])
-  /\ c.engine_defined
+  /\ c.engines # "none"                                 \* every engine an ensemble uses has a section:
+  /\ c.quantis => c.engines = "both"                     \* QuanTIS runs [0-] with its own engine, `engine0`
   /\ c.lm1 # None => c.lm1 < Pos(c.intf[1])
 
 Init == /\ done = FALSE /\ verdict = "?"
         /\ \E il \in IntfLists, w \in WorkerVals, ml \in MoveLens, wf \in {0, 2, 3}, cap \in CapVals, lm1 \in Lm1Vals,
-              eng \in BOOLEAN, q \in BOOLEAN :
+              eng \in {"none", "main", "both"}, q \in BOOLEAN :
              cfg = [intf |-> il, workers |-> w, moves |-> MovesOf(ml, wf), cap |-> cap, lm1 |-> lm1,
-                    engine_defined |-> eng, quantis |-> q]
+                    engines |-> eng, quantis |-> q]
 Apply == /\ ~done /\ done' = TRUE
          /\ verdict' = IF Valid(cfg) THEN "free" ELSE "reject"
          /\ UNCHANGED cfg
@@ -55,5 +56,5 @@ Spec == Init /\ [][Next]_vars
 RejectHasReason == (done /\ verdict = "reject") =>
    LET n == Len(cfg.intf) IN
    \/ n < 2 \/ ~Sorted(cfg.intf) \/ ~Distinct(cfg.intf) \/ cfg.workers > n - 1 \/ Len(cfg.moves) < n
-   \/ ~cfg.engine_defined \/ cfg.cap # None \/ cfg.lm1 # None
+   \/ cfg.engines = "none" \/ (cfg.quantis /\ cfg.engines # "both") \/ cfg.cap # None \/ cfg.lm1 # None
 =============================================================================
